@@ -18,13 +18,13 @@ CHECKS = {
  "C07": dict(
    level="exploration",
    technique="randomized polynomial identity testing (finite differences along random lines over all indeterminates, Schwartz-Zippel) of every degree bound on SSA IR nodes, using the reference interpreter on generated programs (proptest tapes, shrinking)",
-   text="For generated templates and functions whose control flow is independent of signals, ports and data parameters (enforced by the generator and re-validated by a static taint analysis), the interpreter is run at s0 + t*delta, t = 0..3, on 3 random lines; for each node bounded by constant/linear/quadratic the (d+1)-th finite difference of its four values must vanish mod p at every dynamic occurrence. CS0013 advice is checked with d = 2 on the right-hand side.",
+   text="For generated templates and functions whose statement-level control flow is independent of signals, ports and data parameters (enforced by the generator and re-validated by a static taint analysis; conditional expressions may depend on signals, only the nodes inside their arms are then skipped), the interpreter is run at s0 + t*delta, t = 0..3, on 3 random lines; for each node bounded by constant/linear/quadratic the (d+1)-th finite difference of its four values must vanish mod p at every dynamic occurrence. CS0013 advice is checked with d = 2 on the right-hand side.",
    note="A polynomial of degree <= d always passes; a higher-degree or non-polynomial expression escapes one line with probability <= D/p (p >= 2^64). Signals keep their witness value when assigned, as the property treats every signal as an independent indeterminate.",
    design="DESIGN.md §3 C07"),
  "C08": dict(
    level="exploration",
    technique="by-construction oracle on generated templates: the generator knows every element-wise `<--`/`-->` assignment and its extent; CS0005/CS0013 findings collected in-process must be in bijection with them, with bounded secondary-label sets (proptest tapes, shrinking)",
-   text="A dedicated generator emits `<--` and `-->` on scalars, array elements (loop-variable and literal indices), component inputs, declaration initialisers, tuple assignments with `_`, tuple declarations and named inputs of anonymous components, at top level and nested up to three levels in loops and branches, mixed with `===`/`<==` statements mentioning the signals; custom templates as negatives. Findings must match the generated assignments one to one by primary-label extent, name the assigned signal, and list exactly constraint statements that mention it (lower bound: identical access; upper bound: mentions the name).",
+   text="A dedicated generator emits `<--` and `-->` on scalars, array elements (loop-variable and literal indices), component inputs, declaration initialisers, tuple assignments with `_` in both arrow directions, tuple declarations, declarations with several `<--` initialisers and named inputs of (parallel) anonymous components, in plain and `parallel` templates with or without a main component, at top level and nested up to three levels in loops and branches, mixed with `===`/`<==` statements mentioning the signals; custom templates as negatives. Findings must match the generated assignments one to one by primary-label extent, name the assigned signal, and list exactly constraint statements that mention it (lower bound: identical access; upper bound: mentions the name).",
    note="CS0005 vs CS0013 is not decided here (that is C07). Files go through parse_files so the desugarer is part of what is checked.",
    design="DESIGN.md §3 C08"),
  "C09": dict(
@@ -41,7 +41,7 @@ CHECKS = {
    design="DESIGN.md §3 C10"),
  "C11": dict(
    level="exploration",
-   technique="table-driven enumeration through the real binary: every (curve, template name) pair of the documented table plus near-miss names, every constant size 0..300 in several syntactic forms, every Num2Bits(k) guard of LessThan, all case variants of curve names; plus generated random mixes (proptest tapes, shrinking)",
+   technique="table-driven enumeration through the real binary: every (curve, template name) pair of the documented table plus near-miss names, every constant size 0..300 in several syntactic forms and four ways of writing the instantiation (initialiser, later assignment, component-array element, element in a loop), every Num2Bits(k) guard of LessThan, all case variants of curve names; plus generated random mixes (proptest tapes, shrinking)",
    text="Instantiations are placed one per line and findings matched by line. CS0016 must appear exactly for the marked (template, curve) pairs of the documented table (Circomlib spelling), never under BN254 and never for near-miss names; CS0010 under BN254 exactly for sizes that are not literal-arithmetic constants < 254 and never under other curves; CS0014 exactly when no Num2Bits(k) with constant k and 2^k - 1 <= p/2 guards the LessThan input (threshold computed from the reference primes); curve names accepted case-insensitively and nothing else.",
    note="Exhaustive over the table, the literal sizes 0..300 and k = 0..300 for all three curves; other size forms and surrounding shapes are sampled in the quick tier.",
    design="DESIGN.md §3 C11"),
@@ -71,56 +71,56 @@ CHECKS = {
    design="DESIGN.md §3 C15"),
  "C01": dict(
    level="exploration",
-   technique="fuzzing of the real release binary with generated inputs: raw bytes / token soup, grammar-derived programs (every production, semantically undisciplined and semantically valid), token-level mutations of valid programs, x random option sets; oracle = clean-termination predicate under CPU and memory limits (proptest tapes with shrinking; libFuzzer in-process targets in the thorough tier)",
-   text="The real CLI is executed as a subprocess (RLIMIT_CPU, RLIMIT_AS, cleared environment) on generated projects of 1-3 files with random supported options. A run is clean iff it exits by itself with status 0 or 1, its last stdout line is the summary, the status matches the summary and stderr shows no panic, stack overflow or allocation failure. Evidence reports how many inputs were rejected by the lexer/parser, by the desugarer, or reached the analysis stage, and the histogram of report ids produced. All committed reproducers are replayed under all three curves. One recorded known finding (stack overflow on ~2000 nested operators) is reported as KNOWN-FINDING and excluded from the search by the generators' nesting bound.",
-   note="Modest size = files <= 16 KiB and nesting depth <= 8. Hang = more than 120 CPU-seconds (480 on re-run), far above the documented 2 x 10 s time box. Absence of crashes cannot be established by sampling.",
+   technique="fuzzing of the real release binary with generated inputs: raw bytes / token soup, grammar-derived programs (every production, semantically undisciplined and semantically valid), token-level mutations of valid programs, small inputs with one deeply nested construct (16 shapes), x random option sets; oracle = clean-termination predicate under CPU and memory limits (proptest tapes with shrinking; libFuzzer in-process targets in the thorough tier)",
+   text="The real CLI is executed as a subprocess (RLIMIT_CPU, RLIMIT_AS, cleared environment) on generated projects of 1-3 files with random supported options. A run is clean iff it exits by itself with status 0 or 1, its last stdout line is the summary, the status matches the summary and stderr shows no panic, stack overflow or allocation failure. Evidence reports how many inputs were rejected by the lexer/parser, by the desugarer, or reached the analysis stage, and the histogram of report ids produced. All committed reproducers are replayed under all three curves. A nesting-depth domain feeds small inputs with one construct nested 10-400 deep (it found the exponential blow-up on nested array indices, repaired). One recorded known finding (stack overflow on a statement with several thousand chained operators) is reported as KNOWN-FINDING; it is identified by the input shape (a statement with >= 1000 operators), so any other stack overflow is a violation.",
+   note="Modest size = files <= 16 KiB, nesting depth <= 8 in the grammar domains and <= 400 in the nesting-depth domain. Hang = more than 120 CPU-seconds (480 on re-run; 30/120 for the nesting-depth inputs), far above the documented 2 x 10 s time box. Absence of crashes cannot be established by sampling.",
    design="DESIGN.md §3 C01"),
  "C02": dict(
    level="fault_enumeration",
    technique="fault injection on generated clean projects run through the real binary: enumeration of fault classes x injection positions (every token boundary of small files, every `;`, every definition) x levels, with an expected-diagnostic oracle (proptest tapes choose project and sampled positions; shrinking)",
-   text="Each generated project is first shown to be clean (exit 0, `No issues found.` at --level error, every definition analysed). One fault is then injected at a time: missing path, dangling symlink, invalid UTF-8, unsupported version (too new / too old), lexical error and unmatched closer before every token (exhaustive for files up to 40 tokens), every dropped `;`, 20 invalid tuple / anonymous-component statement forms in template and function bodies, repeated parameter, duplicated definition, several main components. At each of the three levels the run must exit non-zero and display an error-level diagnostic with an id from the fault's expected set, located in the faulted file where there is a file to point into.",
+   text="Each generated project is first shown to be clean (exit 0, `No issues found.` at --level error, every definition analysed). One fault is then injected at a time: missing path (also under names that do not end in .circom), dangling symlink, invalid UTF-8, eleven unsupported versions, lexical error and unmatched closer before every token (exhaustive for files up to 40 tokens), every dropped `;`, 26 invalid tuple / anonymous-component statement forms in template and function bodies, repeated parameter, duplicated definition (also: a second definition inside a file that is only included, where either an error or the analysis of every definition of the named files is required), several main components. At each of the three levels the run must exit non-zero and display an error-level diagnostic with an id from the fault's expected set, located in the faulted file where there is a file to point into.",
    note="Unreadable files are simulated by invalid UTF-8 because the sandbox runs as root. Wording of messages is not inspected. Runs that crash are left to C01.",
    design="DESIGN.md §3 C02"),
  "C03": dict(
    level="exploration",
    technique="differential testing of the real binary against an in-process reference that bypasses caches/writers/filters, plus algebraic filter laws over the level x allow-subset lattice and a SARIF round-trip, on generated multi-file projects (proptest tapes, shrinking)",
-   text="Generated projects whose templates instantiate each other and contain shadowing declarations are run through the real CLI and compared with a reference multiset of findings built from parse_files, direct into_cfg/into_ssa on every definition of a named file and all analysis passes. The exit status / summary contract is checked on every run, the SARIF file is compared with the findings at each level (ids, levels, messages, regions of all labels, one rule descriptor per id, `Result written` note), and the filter clause is checked as an identity displayed(L, A) = {f in U | level >= L, id not in A} for every level and every allow-subset of the occurring ids (16 sampled subsets above 4 ids), plus monotonicity under naming an extra file.",
+   text="Generated projects whose templates instantiate each other and contain shadowing declarations are run through the real CLI and compared with a reference multiset of findings built from parse_files, direct into_cfg/into_ssa on every definition of a named file and all analysis passes. The exit status / summary contract is checked on every run, the SARIF file is compared with the findings at each level (ids, levels, messages, regions of all labels, one rule descriptor per id, `Result written` note), and the filter clause is checked as an identity displayed(L, A) = {f in U | level >= L, id not in A} for every level and every allow-subset of the occurring ids (16 sampled subsets above 4 ids), plus monotonicity under naming an extra file. Projects contain definitions that fail SSA conversion after a CFG-stage warning, templates that instantiate failing templates or themselves, and valid tuple / anonymous-component statements.",
    note="The reference shares the individual passes with the tool by design; a report without a location must be displayed. Crashing runs are left to C01.",
    design="DESIGN.md §3 C03"),
  "C04": dict(
    level="exploration",
    technique="property-based testing of label validity and construct identity: generator-recorded source spans vs the labels of all reports collected in-process, and line:col / SARIF regions of the real binary vs positions recomputed from the original bytes (proptest tapes, shrinking)",
-   text="For every label of every report of generated projects (with multi-byte text, comments of every shape, CRLF, tabs): file id known, range ordered, inside the file and on char boundaries; the trimmed extent equals the extent of a generator node of a kind admissible for that report id and mentions the subject named in the message; the binary's file:line:col and every SARIF region equal the position recomputed from the original bytes. Error inputs (lexical/syntax faults, unterminated comments after non-ASCII text) are checked the same way.",
+   text="For every label of every report of generated projects (with multi-byte text, comments of every shape, CRLF, tabs): file id known, range ordered, inside the file and on char boundaries; the trimmed extent equals the extent of a generator node of a kind admissible for that report id and mentions the subject named in the message; the binary's file:line:col and every SARIF region equal the position recomputed from the original bytes. Error inputs (lexical/syntax faults, unterminated comments after non-ASCII text) are checked the same way, as are the labels of the duplicate-definition error for a definition copied into a second named file. Projects include a byte order mark, desugared statements (tuple elements, anonymous components) and nested signal declarations.",
    note="The id -> construct table is transcribed from the report constructors (validated on the unchanged tree); ids outside the table only need to coincide with some generator node. Trailing blanks/comments are trimmed because the grammar ends variables, numbers and includes at the next token.",
    design="DESIGN.md §3 C04"),
  "C17": dict(
    level="exploration",
    technique="metamorphic testing of the real binary on generated projects: repeat (fresh random hasher per process), reorder files and definitions, insert unreferenced definitions; findings compared as multisets from SARIF (proptest tapes, shrinking)",
-   text="For generated multi-file projects: repeated runs must give identical findings including positions; reversing the order of the named files must give identical findings; permuting the definitions of every file must give the same findings modulo positions (rule id, level, normalised message, normalised text under every label); inserting an unreferenced template and function must leave all other findings unchanged while the inserted definitions get their own.",
+   text="For generated multi-file projects: repeated runs must give identical findings including positions; reversing the order of the named files must give identical findings; permuting the definitions of every file must give the same findings modulo positions (rule id, level, normalised message, normalised text under every label); inserting an unreferenced template and function (valid, or one the desugarer must reject) must leave all other findings unchanged while the inserted definitions get their own. Projects in which two named files define the same name and three hand-written files exercising the special constructs of every analysis pass must display identical findings in 8-60 repeated runs.",
    note="Hash-map iteration orders are sampled by repeated processes (5 quick / 20 thorough per project), not enumerated.",
    design="DESIGN.md §3 C17"),
  "C18": dict(
    level="translation_validation",
    technique="(a) own AST walker over parse_files output of generated `wild` programs (sugar in every position) checking completeness/rejection and panic-freedom downstream; (b) differential testing of generated sugared templates against generator-written expansions, comparing finding multisets (proptest tapes, shrinking)",
-   text="Completeness: no tuple, anonymous component or multi-substitution may remain in any template handed to the analysis; functions containing sugar must be absent with a TAC01/TAC02 error; dropped templates must come with such an error; lifting, SSA and all passes on the rest must not panic. Faithfulness: for 12 sugar forms (tuple assignments and declarations, nested tuples, positional/named/parallel/multi-output/statement anonymous components, anonymous components inside tuples) the findings of the sugared template equal those of the hand-written expansion defined in the property, as multisets of (id, message and label messages with component names normalised); weaker containment relation inside loops.",
+   text="Completeness: no tuple, anonymous component or multi-substitution may remain in any template handed to the analysis; functions containing sugar must be absent with a TAC01/TAC02 error; dropped templates must come with such an error; lifting, SSA and all passes on the rest must not panic. Faithfulness: for 14 sugar forms (tuple assignments in both arrow directions and declarations, nested tuples, a template with comma-separated non-alphabetical ports, positional/named/parallel/multi-output/statement anonymous components, anonymous components inside tuples) the findings of the sugared template equal those of the hand-written expansion defined in the property, as multisets of (id, message and label messages with component names normalised); weaker containment relation inside loops.",
    note="Pairs whose expansion is rejected are discarded. Loop positions use the weaker relation because the explicit Circom form of per-iteration components differs across 2.0.0-2.1.4.",
    design="DESIGN.md §3 C18"),
  "C19": dict(
    level="exploration",
    technique="model-based testing: generated include graphs on a materialised directory tree, real binary run with the parser's debug log, compared with a reference include resolver (proptest tapes, shrinking)",
-   text="Projects of 2-6 files over five directories with chains, diamonds, cycles, self includes, `./`/`../`/`dir/../` spellings, symlinks, -L directories and files in both orders, unresolvable includes, relative or absolute arguments. Checked against the reference resolver: termination, each reachable file read exactly once (canonical paths), exactly the definitions of named files analysed once, findings only in named files, one deterministic finding per template of a named file, P1000 at the include statement for unresolvable includes of named files.",
+   text="Projects of 2-6 files over seven directories with chains, diamonds, cycles, self includes, `./`/`../`/`dir/../` spellings, bare and `deep/../` names found only through libraries, symlinks, -L directories and files in both orders, unresolvable includes, relative or absolute arguments. Checked against the reference resolver: termination, each reachable file read exactly once (canonical paths), exactly the definitions of named files analysed once, findings only in named files, one deterministic finding per template of a named file, P1000 at the include statement for unresolvable includes of named files.",
    note="Read counts come from the parser's own `reading file` debug line (RUST_LOG), also present in release builds.",
    design="DESIGN.md §3 C19"),
  "C05": dict(
    level="exploration",
-   technique="differential testing of the comment stripper against a reference lexer (exhaustive over all strings <= 8 symbols of a 7-symbol alphabet, plus generated fragment strings) and metamorphic testing of the whole binary (blank comments / remove comments / inject unterminated opener) on generated programs",
+   technique="differential testing of the comment stripper against a reference lexer (exhaustive over all strings <= 8 symbols of a 7-symbol alphabet and <= 7 symbols with a bare carriage return added, plus generated fragment strings) and metamorphic testing of the whole binary (blank comments / remove comments / inject unterminated opener) on generated programs",
    text="(1) parser::preprocess (re-exported by the verif feature) must agree with a three-state reference lexer on Ok/Err, byte length, untouched code bytes and blanked comment bytes, for every string up to length 8 (quick) / 10 (thorough) over {/,*,newline,a,quote,space,é} and for generated long strings. (2) Generated programs with comments of every listed shape between tokens are run through the real binary: findings are identical after blanking each comment in place (line:col included), identical modulo positions after removing them, and the same definitions are analysed. (3) An unterminated opener injected at a random token boundary must yield an error diagnostic and a non-zero exit.",
    note="String literals are not special to the comment lexer (as in Circom's own preprocessor). Blanking replaces each comment character by one blank so displayed columns (counted in characters) are comparable. Crashing runs are skipped here and judged by C01.",
    design="DESIGN.md §3 C05"),
  "C20": dict(
    level="fault_enumeration",
-   technique="enumeration of every cut point of value and degree propagation through the verif pass-budget hook, re-checking the C06/C07 oracles at each cut on generated programs (proptest tapes, shrinking)",
-   text="The hook caps the number of propagation passes (stand-in for the 10 s time box). For each generated definition the passes-to-fixpoint F is measured and into_ssa is repeated for every budget k = 0..min(F,16) (plus sampled k above), for value and degree propagation independently; at each cut conversion and all passes must complete and all constants / degree bounds present must satisfy the C06 / C07 oracles, including CS0009, CS0010-size and CS0013 consumers.",
+   technique="enumeration of every cut point of value and degree propagation through the verif pass-budget hook, re-checking the C06/C07 oracles at each cut on generated programs biased to late-arriving facts, plus runs of the real binary on definitions that exceed the real 10 s time box (proptest tapes, shrinking)",
+   text="The hook caps the number of propagation passes (stand-in for the 10 s time box). For each generated definition the passes-to-fixpoint F is measured and into_ssa is repeated for every budget k = 0..min(F,16) (plus sampled k above), for value and degree propagation independently; at each cut conversion and all passes must complete and all constants / degree bounds present must satisfy the C06 / C07 oracles, including CS0009, CS0010-size and CS0013 consumers. Separately the real release binary is run on definitions with 1800-2700 chained assignments whose value propagation provably hits the real time box (debug log) and must end normally.",
    note="The elapsed-time check sits at the end of a pass, so stopping between passes is exactly what a slow machine can cause.",
    design="DESIGN.md §3 C20"),
 }
